@@ -165,7 +165,28 @@ fn many_huge_requests(run: &Run, thorough: bool) {
     run.set("many_huge_requests", json!({"value_each": "2^120", "counts": if thorough { vec![255, 256, 257, 300, 600] } else { vec![255, 257, 300] }, "pool": "MEL/SYM", "sides": ["SYM", "MEL"]}));
 }
 
+/// Amounts near the maximum coin value against the built-in MEL/SYM pool (lopsided prices: shares that round down to nothing).
+fn huge_amounts(run: &Run, thorough: bool) {
+    let rootn = root_huge(NetID::Custom02);
+    let mut cfg = pool_cfg();
+    cfg.mints = false;
+    cfg.overpay = false;
+    cfg.transfers = false;
+    cfg.swaps_per_side = 2;
+    cfg.max_txs_per_block = 3;
+    cfg.seal_actions = vec![None];
+    cfg.only_pools = Some(vec![melstructs::PoolKey::new(melstructs::Denom::Mel, melstructs::Denom::Sym)]);
+    let eng = crate::stf::Engine::new(run);
+    let c2 = cfg.clone();
+    let acts = move |n: &crate::stf::Node| crate::alphabet::actions(n, &c2);
+    let visit = |_n: &crate::stf::Node| {};
+    let st = crate::stf::bfs(&eng, vec![rootn], if thorough { 8 } else { 6 }, 400_000, &acts, &visit);
+    run.set("scenario:custom02-huge-amounts", json!({"depth_bound_completed": st.depth_completed, "unique_states": st.states, "transitions": st.transitions}));
+    println!("  scenario custom02-huge-amounts: depth {} states {} transitions {}", st.depth_completed, st.states, st.transitions);
+}
+
 pub fn run(run: &Run) {
+    huge_amounts(run, run.thorough());
     many_huge_requests(run, run.thorough());
     for sc in scenarios(run.thorough()) {
         sample_alphabet(run, &sc);
